@@ -67,9 +67,9 @@ def run(ctx):
         "a table in which two different host patterns denote the same host on the connection at hand (a.io / a.io:80 / A.io), or two paths of one host that the matcher cannot tell apart (/X/y and /x/y under iprefix, /x* and /x under glob), is outside the claim (the statement does not rank them); such expectations are generated as 'not posed' and skipped",
         "nested braces, negated classes, ranges and '**' in host patterns and glob paths beyond literal + trailing '*' are outside the universe; path characters sorting below '*' (space ! \" # $ % & ' ( )) are outside the universe",
         "Table.LookupHost (TCP+SNI): only 'a route whose host is literally the server name, path /, serves it' is claimed; fallback to host-less or wildcard routes for SNI lookups is not judged",
-        "the table is what a history of route commands leaves: routes that were added and deleted again (one, thorough two, per table; the three forms of `route del`) must neither serve nor shadow; such tables are built both by NewTable (text) and by NewTableCustom (command list of the custom back end), plain tables alternate between the two builders",
-        "requests in flight together: the lines of one table that the generator printed consecutively (all 42 of a random table, fragments of the exhaustive ones) are replayed by 8 goroutines at once on one table with one shared GlobCache; every answer must be the sequential one (the statement quantifies over every request; scheduling is whatever the Go runtime does, so this pass can miss an interleaving - C06 owns the exhaustive treatment)",
-        "observers: a table (<=2 routes of the 9-route universe, thorough also the core universe) is installed as the ACTIVE table and read by one (thorough up to four) of Table.String, Table.Dump, GET /api/routes, GET /api/routes?raw before the lookups; the answers after the reads must be those before them (Match_MC!Observe leaves the table unchanged); the web UI page and the metrics side paths are not among the observers",
+        "the table is what a history of route commands leaves: routes that were added and deleted again (one, thorough two, per table; the three forms of `route del`) must neither serve nor shadow; such tables are built by NewTableCustom (command list of the custom back end), every third also by NewTable (text); plain tables alternate between the two builders",
+        "requests in flight together: the lines of one table that the generator printed consecutively (all 42 of a random table, fragments of the exhaustive ones) are replayed by 6 goroutines at once on one table with one shared GlobCache; every answer must be the sequential one (the statement quantifies over every request; scheduling is whatever the Go runtime does, so this pass can miss an interleaving - C06 owns the exhaustive treatment)",
+        "observers: a table (<=2 routes over {none, a.io} x {/, /x, /x/y}) is installed as the ACTIVE table and read by one (thorough up to four) of Table.String, Table.Dump, GET /api/routes, GET /api/routes?raw before the lookups; the answers after the reads must be those before them (Match_MC!Observe leaves the table unchanged); the web UI page and the metrics side paths are not among the observers",
         "custom registry back end (registry.backend=custom, non-default): the real poll loop fetches an accepted document (<=2 routes over {none, a.io} x {/, /x, /x/y}) and then a refused one (two valid entries, shortest path first, followed by an unknown command / an add without source / an add without destination); the table in force must stay the accepted one; HTTP errors, timeouts and undecodable JSON of the poll are C02's",
         "one target per route (the service name encodes the route), so the picker plays no role here (C04)",
     ]
@@ -86,7 +86,9 @@ def run(ctx):
         if not ctx.need_tlc_ok(mc, "Match MC " + name):
             return
         # Retire (route del) is disabled by construction where no deleted routes are allowed
-        zero = [a for a in mc.coverage0 if not (a == "Retire" and "deleted" not in name)]
+        # and so is the Observe disjunct of QNext (no observers in the MC runs), which TLC reports
+        # under the name of the enclosing definition
+        zero = [a for a in mc.coverage0 if not (a == "Retire" and "deleted" not in name) and a != "QNext"]
         if ctx.thorough and zero:
             ctx.inconclusive("Match MC %s: actions never taken: %s" % (name, zero))
             return
@@ -97,19 +99,18 @@ def run(ctx):
     # "tiny ... +1 deleted": every table of <=2 routes that a history with one added-and-deleted
     # route leaves (the deleted route must neither serve nor shadow)
     gens = [("core<=2", cfg("Spec", 2, "core"), 600),
-            ("tiny<=2 +1 deleted", cfg("Spec", 2, "tiny", gone=1), 600),
-            ("tiny<=2 read by one observer", cfg("Spec", 2, "tiny", nobs=1), 600)]
+            ("tiny<=2 +1 deleted", cfg("Spec", 2, "tiny", gone=1), 600)]
     if ctx.thorough:
         gens = [("full<=2", cfg("Spec", 2, "full"), 1500), ("mini<=3", cfg("Spec", 3, "mini"), 1500),
                 ("tiny<=2 +2 deleted", cfg("Spec", 2, "tiny", gone=2), 900), ("mini<=1 +1 deleted", cfg("Spec", 1, "mini", gone=1), 900),
-                ("tiny<=2 read by up to 4 observers", cfg("Spec", 2, "tiny", nobs=4), 900), ("core<=2 read by one observer", cfg("Spec", 2, "core", nobs=1), 1500)]
+]
     for name, text, to in gens:
         g = ctx.tlc("Match_MC", cfg_text=text, workers=WORKERS, json_sink=cases, timeout=to)
         ctx.log("Gen %s: %d transitions, %d states, %.0fs" % (name, g.generated, g.distinct, g.wall))
         if not ctx.need_tlc_ok(g, "Match Gen " + name):
             return
         ctx.cover("gen " + name, states=g.distinct, transitions=g.generated)
-    sims = [(3, ctx.pick(300, 1000))]
+    sims = [(3, ctx.pick(200, 1000))]
     if ctx.thorough:
         sims.append((4, 1000))
         sims.append((6, 300))
@@ -134,8 +135,8 @@ def run(ctx):
     s = r.summary
     ctx.log("replayed %d transitions = %d lookups + %d LookupHost calls (%d routed, %d unrouted, %d not posed), %d failed, %.0fs"
             % (s["lines"], s["lookups"], s["sni"], s["routed"], s["unrouted"], s["illposed"], s["fails"], r.wall))
-    ctx.log("tables with a history (routes added and deleted again), each built by NewTable and by NewTableCustom: %d" % s["histories"])
-    ctx.log("requests in flight together: %d tables replayed from 8 goroutines each, %d lookups" % (s["concurrent_tables"], s["concurrent_lookups"]))
+    ctx.log("tables with a history (routes added and deleted again), built by NewTableCustom (every third also by NewTable): %d" % s["histories"])
+    ctx.log("requests in flight together: %d tables replayed from 6 goroutines each, %d lookups" % (s["concurrent_tables"], s["concurrent_lookups"]))
     if s["lookups"] == 0 or s["routed"] == 0 or s["unrouted"] == 0 or s["histories"] == 0 or s["concurrent_tables"] == 0:
         ctx.inconclusive("C03: vacuous replay (%s)" % json.dumps(s)[:300])
         return
@@ -147,7 +148,7 @@ def run(ctx):
     # 3b. gRPC leg (synthetic request built by GrpcProxyInterceptor.lookup): plain-connection
     #     transitions, a seed-selected slice in the quick tier
     g = ctx.gotest("proxy", ["proxy/c03_grpc_test.go"], "^TestVerifC03Grpc$",
-                   env={"VERIF_IN": cases, "VERIF_GRPC_EVERY": ctx.pick(8, 4)}, timeout=900)
+                   env={"VERIF_IN": cases, "VERIF_GRPC_EVERY": ctx.pick(16, 4)}, timeout=900)
     if not ctx.need_go_ok(g, "C03 gRPC replay"):
         return
     if g.of_kind("error"):
@@ -161,9 +162,17 @@ def run(ctx):
     ctx.cover("grpc", traces_validated_against_impl=gs["lines"], evaluations=gs["lookups"])
     ctx.take_failures(g, "c03-grpc")
 
-    # 3c. readers of the active table (Match_MC!Observe): the lines that carry observers are installed
-    #     with route.SetTable and read through the real admin API handler before the lookups
-    a = ctx.gotest("admin/api", ["admin/api/c03_test.go"], "^TestVerifC03Admin$", env={"VERIF_IN": cases}, timeout=900)
+    # 3c/3d. one small generator run (single worker, so that the lines of a table stay together) for the
+    #     two legs that install the table as the ACTIVE one: read by an observer (Match_MC!Observe), and
+    #     followed by a refused configuration document (Match_MC!RejectDoc)
+    ocases = os.path.join(ctx.tmp, "c03.active")
+    og = ctx.tlc("Match_MC", cfg_text=cfg("Spec", 2, "two", nobs=ctx.pick(1, 4), bad=2), workers=1, json_sink=ocases, timeout=900)
+    ctx.log("Gen two<=2 read by observers / followed by a refused document: %d transitions, %d states, %.0fs" % (og.generated, og.distinct, og.wall))
+    if not ctx.need_tlc_ok(og, "Match Gen active table"):
+        return
+    ctx.cover("gen active", states=og.distinct, transitions=og.generated)
+    # 3c. readers of the active table: installed with route.SetTable, read through the real admin API handler
+    a = ctx.gotest("admin/api", ["admin/api/c03_test.go"], "^TestVerifC03Admin$", env={"VERIF_IN": ocases}, timeout=900)
     if not ctx.need_go_ok(a, "C03 admin-observer replay"):
         return
     if a.of_kind("error"):
@@ -177,16 +186,8 @@ def run(ctx):
         return
     ctx.cover("admin", traces_validated_against_impl=as_["lines"], evaluations=as_["lookups"])
     ctx.take_failures(a, "c03-admin")
-
-    # 3d. behind the custom registry back end (Match_MC!RejectDoc): an accepted document, then a
-    #     document of two routes + one invalid entry that is refused; the table in force stays
-    ccases = os.path.join(ctx.tmp, "c03.custom")
-    cg = ctx.tlc("Match_MC", cfg_text=cfg("Spec", 2, "two", bad=2), workers=1, json_sink=ccases, timeout=600)
-    ctx.log("Gen two<=2 + refused document: %d transitions, %d states, %.0fs" % (cg.generated, cg.distinct, cg.wall))
-    if not ctx.need_tlc_ok(cg, "Match Gen refused documents"):
-        return
-    ctx.cover("gen refused", states=cg.distinct, transitions=cg.generated)
-    cu = ctx.gotest("registry/custom", ["registry/custom/c03_test.go"], "^TestVerifC03Custom$", env={"VERIF_IN": ccases}, timeout=900)
+    # 3d. behind the custom registry back end: an accepted document, then a refused one
+    cu = ctx.gotest("registry/custom", ["registry/custom/c03_test.go"], "^TestVerifC03Custom$", env={"VERIF_IN": ocases}, timeout=900)
     if not ctx.need_go_ok(cu, "C03 custom back end replay"):
         return
     if cu.of_kind("error"):
